@@ -4,7 +4,7 @@ import ast
 from ..core import sym
 from ..core.expand import u, call_name, get_arg, bind_args, Expander, is_marker, phi_alternatives
 from ..core.loader import Inconclusive, const_value, parents
-from .common import (returns, all_nodes, callee, strip_shape, calls_in, guards_of, stmt_of, loops_around, kw,
+from .common import (aliases_of, returns, all_nodes, callee, strip_shape, calls_in, guards_of, stmt_of, loops_around, kw,
                      find_assignments, result_fields, in_loop)
 
 EXPLANATION = (
@@ -413,7 +413,7 @@ def rule_quantile(ck):
             o.fail('quantile is `%s`; it must be the fraction of simulated statistics not exceeding the observed one: '
                    'sum(sim <= obs) / num_simulations' % u(q_src(t, q))[:90])
         apps = [n for n in all_nodes(t) if isinstance(n, ast.Call) and isinstance(n.func, ast.Attribute) and n.func.attr == 'append'
-                and isinstance(n.func.value, ast.Name) and n.func.value.id == sims.id]
+                and isinstance(n.func.value, ast.Name) and n.func.value.id in aliases_of(t, sims.id)]
         oo = ck.ob('C06-D8.dist', t, apps[0] if apps else 'append', apps[0] if apps else t.node)
         good = len(apps) == 1 and len(loops_around(apps[0])) == 1 and not guards_of(apps[0], loops_around(apps[0])[0])
         if good:
